@@ -643,7 +643,23 @@ func ruleReset(c *Ctx) {
 		case cfg[f]:
 			c.ok(key, pos, "class config: definitely assigned on every successful path of setExecuteConfig; dirtied by %s", whoS)
 		case vars[f] && varsFields[f] && !companion[f]:
-			c.ok(key, pos, "class vars: program variable storage, reset by resetVars; dirtied by %s", whoS)
+			// a special variable only the program assigns is a program variable; one the interpreter itself writes while
+			// it runs (outside the assignment path) is state of the run - like NR, RSTART - and belongs to the core reset
+			produced := ""
+			for _, w := range dirt {
+				if setSpecialRegion != nil && setSpecialRegion[w.fn] {
+					continue
+				}
+				if w.fn.Name() == "setSpecial" {
+					continue
+				}
+				produced = fnKey(w.fn)
+			}
+			if produced != "" && f != "globals" && f != "arrays" {
+				c.bad("field-produced:"+f, pos, "field %s holds a special variable that the interpreter itself writes during a run (in %s), not only the program's assignments, yet only resetVars resets it: without ResetVars the value the previous run left (RT of its last record) is visible to the next run, while NR, RSTART and RLENGTH start afresh", f, produced)
+			} else {
+				c.ok(key, pos, "class vars: program variable storage, reset by resetVars; dirtied by %s", whoS)
+			}
 		case vars[f] && companion[f]:
 			c.ok(key, pos, "class vars (derived companion of a persisting special): reset by resetVars; dirtied by %s", whoS)
 		case rnd[f]:
